@@ -139,7 +139,7 @@ func gen(t *rapid.T) *Case {
 	c.Mode = rapid.SampledFrom([]string{"pure", "pure", "pipeline", "equal", "pure", "pure", "pipeline", "equal", "drift"}).Draw(t, "mode")
 	switch c.Mode {
 	case "pure":
-		c.In = rapid.SampledFrom([]string{"typed", "string", "xml", "gnmi", "gnmi-ascii"}).Draw(t, "in")
+		c.In = rapid.SampledFrom([]string{"typed", "string", "xml", "gnmi", "gnmi-ascii", "notif-json", "notif-json_ietf"}).Draw(t, "in")
 	case "pipeline":
 		c.In = rapid.SampledFrom([]string{"typed", "string", "json", "json_ietf", "json-leaf", "json_ietf-leaf"}).Draw(t, "in")
 	case "equal":
@@ -486,6 +486,32 @@ func execPure(ctx context.Context, n *vlib.Node, c *Case) *vlib.Failure {
 			return vlib.Failf(sig("from-gnmi-ascii-refused", n, c), "TypedValueToYANGType(FromGNMITypedValue(%v)) for leaf %s: %v", g, n.Name, err)
 		}
 		stored = out
+	case "notif-json", "notif-json_ietf":
+		// a device notification whose update addresses the leaf and carries the value as JSON / JSON_IETF (what a gNMI
+		// device sends in these encodings), through the conversion the sync loop applies to every notification
+		ietf := c.In == "notif-json_ietf"
+		path := vlib.P("types", n.Name)
+		b, err := vlib.JSONLeafValue(path, want, ietf)
+		if err != nil {
+			harnessErr(err)
+		}
+		tv := &sdcpb.TypedValue{Value: &sdcpb.TypedValue_JsonVal{JsonVal: b}}
+		if ietf {
+			tv = &sdcpb.TypedValue{Value: &sdcpb.TypedValue_JsonIetfVal{JsonIetfVal: b}}
+		}
+		scb := schemaClient.NewSchemaClientBound(vlib.SchemaRef(), vlib.MustEnv().SchemaClient)
+		nn, err := utils.NewConverter(scb).ConvertNotificationTypedValues(ctx, &sdcpb.Notification{Update: []*sdcpb.Update{{Path: path.Sdcpb(), Value: tv}}})
+		if err != nil {
+			return vlib.Failf(sig(c.In+"-refused", n, c), "ConvertNotificationTypedValues for leaf %s = %s (valid value %q): %v", n.Name, b, want, err)
+		}
+		for _, u := range nn.GetUpdate() {
+			if vlib.FromSdcpb(u.GetPath()).Canon() == path.Canon() {
+				stored = u.GetValue()
+			}
+		}
+		if stored == nil {
+			return vlib.Failf(sig("in-"+c.In, n, c), "leaf %s = %s: the converted notification holds no value for the leaf: %v", n.Name, b, nn)
+		}
 	case "gnmi":
 		g := nativeGNMI(n, c.Vals)
 		if g == nil {
